@@ -35,6 +35,16 @@ if not hasattr(operator, "call"):                         # Python < 3.11: no bu
   CALLABLE_KINDS = tuple(k for k in CALLABLE_KINDS if k != "builtin")
   BFS_CALLABLES = tuple(k for k in BFS_CALLABLES if k != "builtin")
 
+# Life-cycle / registration events of core a COMPONENT may listen to, and what such a listener may do when it is called
+# (see World.listener_runs).  Fault kinds: an ordinary Exception, an Exception whose text cannot be produced, revent's
+# own ReventError (raised by revent itself for a misuse inside the handler, raised directly, a subclass) and an
+# exception outside the Exception hierarchy (a handler calling sys.exit()).
+LISTENER_EVENTS = ("GoingUp", "Up", "GoingDown", "Down", "ComponentRegistered")
+LISTENER_SLOTS = (("A", 5), ("B", -1))          # (slot, priority): ahead of / behind the GoingUp handlers that take deferrals
+LISTENER_FAULTS_Q = ("ValueError", "bad-str", "ReventError:undeclared-event", "SystemExit")
+LISTENER_FAULTS_T = LISTENER_FAULTS_Q + ("KeyError", "StopIteration", "TypeError", "AttributeError", "ReventError",
+                                         "ReventError:unknown-event-name", "ReventError-subclass", "KeyboardInterrupt")
+
 _P = None
 _CUR = None
 
@@ -122,6 +132,11 @@ def _import ():
   class CompUndeclared (rv.EventMixin):        # an EventMixin that declares nothing (class default None)
     def __init__ (self, name, gen): self.name = name; self.gen = gen
   P.Ev = Ev; P.Comp = Comp; P.Plain = Plain
+  class Undeclared (rv.Event): pass            # an event class no component lists in _eventMixin_events
+  class ReventSub (rv.ReventError): pass
+  P.Undeclared = Undeclared; P.ReventSub = ReventSub
+  P.LIFE = {"GoingUp": poxcore.GoingUpEvent, "Up": poxcore.UpEvent, "GoingDown": poxcore.GoingDownEvent,
+            "Down": poxcore.DownEvent, "ComponentRegistered": poxcore.ComponentRegistered}
   P.KINDS = {"events": Comp, "empty": CompEmpty, "plain": Plain, "any": CompAny, "undeclared": CompUndeclared}
   P.KIND_OF = dict((c, k) for k, c in P.KINDS.items())
 
@@ -335,6 +350,9 @@ class World (object):
     self.cb_wid = {}              # id(callable) -> wid, for callables that cannot carry an attribute
     self.keep = []                # keeps those callables alive (ids stay unique)
     self.wkind = {}               # wid -> (callable kind, argument mode) where not the plain function
+    self.injected = []            # exception objects raised on purpose by component listeners on core
+    self.fault = None             # (event, exception class) a component listener failed with during the current operation
+    self.reentry = None           # (event, action) a component listener called back into core during the current operation
 
   def boot (self):
     P = self.P
@@ -347,10 +365,25 @@ class World (object):
       sch._hasQuit = True; sch._allDone = True; w.sched_quit += 1
     sch.quit = squit
     sch.callLater = lambda f, *a, **k: w.later.append((f, a, k))
+    listen = self.prm.get("listeners")
+    # with component listeners around, the observing listeners have to be ahead of them (a listener that fails or
+    # halts the event ends its delivery: revent semantics, not constrained here)
+    okw = dict(priority=10) if listen else {}
     for name, cls in (("GoingUp", P.core.GoingUpEvent), ("Up", P.core.UpEvent),
                       ("GoingDown", P.core.GoingDownEvent), ("Down", P.core.DownEvent)):
-      core.addListener(cls, self._life(name))
-    core.addListener(P.core.ComponentRegistered, self._on_cr)
+      core.addListener(cls, self._life(name), **okw)
+    core.addListener(P.core.ComponentRegistered, self._on_cr, **okw)
+    if listen:
+      # component A: an object with _handle_<Event> methods, subscribed with core.addListeners(obj);
+      # component B: plain functions subscribed by event name
+      for slot, prio in LISTENER_SLOTS[:self.prm.get("nlisteners", 2)]:
+        if slot == "A":
+          body = dict(("_handle_" + P.LIFE[ev].__name__, self._listener(ev, slot, True)) for ev in listen)
+          self.keep.append(type("ComponentA", (object,), body)())
+          core.addListeners(self.keep[-1], priority=prio)
+        else:
+          for ev in listen:
+            core.addListenerByName(P.LIFE[ev].__name__, self._listener(ev, slot, False), priority=prio)
 
   def note (self, fmt, *args):
     self.hist.append((fmt, args))
@@ -371,6 +404,10 @@ class World (object):
   def fail (self, clause, text, feature=None):
     if self.violated is None:
       if feature is None: feature = self.feature()
+      # an oracle clause that fails in an operation during which a component's listener on core failed / called
+      # back into core names that circumstance (one defect of that kind = one key per clause)
+      if self.fault: feature += ":%s-listener-raised-%s" % self.fault
+      elif self.reentry: feature += ":%s-inside-%s-listener" % (self.reentry[1], self.reentry[0])
       self.violated = ("%s:%s:%s" % (PID, clause, feature), text)
       self.note("  !! %s: %s", clause, text)
 
@@ -487,10 +524,78 @@ class World (object):
       else:
         self.do_cwr([b[4:]], "str")
     except Exception as e:
+      if self.is_injected(e): raise            # a listener's failure passes through the callback like any other error
       self.fail("raises", "chained %s raised %s: %s" % (b, type(e).__name__, e),
                 ("register" if b.startswith("reg:") else "call_when_ready") + ":" + site_of(self.P, e))
     finally:
       self.depth -= 1
+
+  # ---- component listeners on core's own events ------------------------------
+  def is_injected (self, e):
+    return any(e is x for x in self.injected)
+
+  def _listener (self, ev, slot, method):
+    w = self
+    if method:
+      def h (self_, event): return w.listener_runs(ev, slot)
+    else:
+      def h (event): return w.listener_runs(ev, slot)
+    return h
+
+  def listener_runs (self, ev, slot):
+    """A component's listener for one of core's own events is called: it returns, fails, halts the event or calls
+    back into core (quit / register / call_when_ready) - one choice per call."""
+    prm = self.prm
+    if self.violated: return
+    self.invocations += 1
+    if self.invocations > INVOCATION_LIMIT:
+      self.fail("runaway", "more than %d callback invocations" % INVOCATION_LIMIT, "listener"); return
+    behs = ["none"] + ["raise:" + k for k in prm["lfaults"]] + ["halt"]
+    if self.quits < 2 and not prm.get("noquit"): behs.append("quit")
+    behs += ["reg:" + n for n in self.names if n not in self.model.comps]
+    if len(self.model.pending) < prm["maxp"]:
+      behs += ["cwr:" + n for n in self.names]
+    b = behs[self.ctx.choose(len(behs), "lbeh")]
+    if b == "none": return
+    self.note("  component %s's %s listener -> %s", slot, ev, b)
+    self.oplog.append(("lbeh", ev, slot, b))
+    if b == "halt": return True
+    if b.startswith("raise:"): self.raise_fault(ev, b[6:])
+    self.reentry = (ev, {"quit": "quit", "reg": "register", "cwr": "call_when_ready"}[b.split(":")[0]])
+    self.depth += 1; self.chained = True
+    try:
+      if b == "quit": self.do_quit()
+      elif b.startswith("reg:"): self.do_register(b[4:])
+      else: self.do_cwr([b[4:]], "str")
+    except BaseException as e:
+      if self.is_injected(e) or not isinstance(e, Exception): raise     # (self.fault names the listener that raised it)
+      self.fail("raises", "%s inside a %s listener raised %s" % (b, ev, _txt(e)),
+                self.reentry[1] + ":" + site_of(self.P, e))
+    finally:
+      self.depth -= 1
+
+  def fault_class (self, e):
+    return ("ReventError" if isinstance(e, self.P.rv.ReventError) else
+            "Exception" if isinstance(e, Exception) else "BaseException")
+
+  def raise_fault (self, ev, kind):
+    P = self.P
+    try:
+      if kind == "ReventError:undeclared-event":         # the handler announces an event its class never declared
+        P.Comp("store", 0).raiseEvent(P.Undeclared())
+      elif kind == "ReventError:unknown-event-name":     # the handler subscribes to an event core does not have
+        self.core.addListenerByName("NoSuchEvent", lambda e: None)
+      elif kind == "ReventError": raise P.rv.ReventError("listener fails on purpose")
+      elif kind == "ReventError-subclass": raise P.ReventSub("listener fails on purpose")
+      elif kind == "bad-str": raise _BadStr()
+      elif kind == "SystemExit": raise SystemExit(3)
+      elif kind == "KeyboardInterrupt": raise KeyboardInterrupt()
+      else: raise _EXC[kind]("listener fails on purpose")
+    except BaseException as e:
+      self.injected.append(e)
+      self.fault = (ev, self.fault_class(e))
+      raise
+    raise RuntimeError("harness: listener fault %r did not raise" % (kind,))
 
   # ---- sinks -----------------------------------------------------------------
   def sink_hit (self, sink, comp):
@@ -661,7 +766,11 @@ class World (object):
       self.core.addListener(P.core.GoingUpEvent, self._goup_handler(code))
     self.model.begin_goup()
     self.calls += 1
-    self.core.goUp()
+    try:
+      self.core.goUp()
+    except BaseException:
+      self.model.abort_goup()                  # goUp did not return: nothing is demanded of a start-up that failed
+      raise
     self.model.end_goup()
 
   def _goup_handler (self, code):
@@ -764,6 +873,7 @@ class World (object):
 
   def do_op (self, op):
     self.cur_op = op; self.oplog = []; self.chained = False; self.calls = 0
+    self.fault = None; self.reentry = None
     self.nops += 1
     self.hist.append(("op", op))
     try:
@@ -777,9 +887,16 @@ class World (object):
       elif k == "take": self.do_take(op[1])
       elif k == "quit": self.do_quit()
       elif k == "thread": self.do_thread()
-    except Exception as e:
-      self.fail("raises", "%s raised %s: %s" % (self.describe(op), type(e).__name__, e),
-                self.feature() + ":" + site_of(self.P, e))
+    except BaseException as e:
+      if self.is_injected(e):
+        # the failure of a component's listener came out of the call: by itself not constrained (the statement
+        # speaks of what is raised and run, which the clauses below check)
+        self.note("  (the listener's %s comes out of the call)", type(e).__name__)
+        self.oplog.append(("escaped", type(e).__name__))
+      elif isinstance(e, Exception):
+        self.fail("raises", "%s raised %s: %s" % (self.describe(op), type(e).__name__, e),
+                  self.feature() + ":" + site_of(self.P, e))
+      else: raise
     if self.violated is None: self.end_of_op()
 
   def end_of_op (self):
@@ -901,14 +1018,25 @@ def params (cfg):
   callables = dict(nc=2, maxp=cfg.pick(2, 3), depth=5, dev=2, sinks=[0], goup=[""], noquit=True,
                    forms=(("str",), ("list",)),
                    callables=[(ck, "plain") for ck in BFS_CALLABLES] + [("function", "both")])
+  # components that LISTEN to core's own events (GoingUp, Up, GoingDown, Down, ComponentRegistered): two per event, one
+  # ahead of and one behind the deferral-taking GoingUp handlers; whenever one is called it returns / fails (every
+  # fault kind) / halts the event / calls quit() / registers a component / declares a waiter.  The harness' observing
+  # listeners are ahead of both.
+  listeners = dict(nc=2, maxp=2, depth=5, dev=cfg.pick(1, 2), sinks=[0, 2], goup=["", "L", "I"],
+                   cwr_masks=[1, 3], forms=(("str",), ("list",)),
+                   listeners=list(LISTENER_EVENTS), nlisteners=2,
+                   lfaults=list(cfg.pick(LISTENER_FAULTS_Q, LISTENER_FAULTS_T)))
+  # the same with TWO non-default picks per history (a listener calls quit() and another one fails inside that quit; two
+  # listeners fail; a waiter callback registers a component whose announcement fails ...) on a smaller alphabet
+  listeners2 = dict(listeners, nc=1, maxp=1, depth=cfg.pick(5, 6), dev=2, sinks=[0], goup=["", "L"], cwr_masks=[1])
   for label, p in (("q", q), ("shared", shared), ("defer", defer), ("wiring", wiring), ("kinds", kinds),
-                   ("callables", callables)):
+                   ("callables", callables), ("listeners", listeners), ("listeners2", listeners2)):
     p["_label"] = label
-  if cfg.quick: return [q, shared, defer, wiring, kinds, callables]
+  if cfg.quick: return [q, shared, defer, wiring, kinds, callables, listeners, listeners2]
   deep = dict(q, maxp=4, depth=6, _label="deep")
   wide = dict(nc=4, maxp=5, depth=4, dev=3, sinks=[0, 1, 2, 3, 4, 5], goup=GOUP_VARIANTS,
               forms=(("str", "list"), ("list", "tuple", "set")), _label="wide")
-  return [deep, wide, shared, defer, wiring, dict(kinds, depth=6, maxp=3), callables]
+  return [deep, wide, shared, defer, wiring, dict(kinds, depth=6, maxp=3), callables, dict(listeners, depth=6), listeners2]
 
 
 def public (prm):
@@ -974,6 +1102,16 @@ RULE = ("breadth-first over canonical states of a real POXCore: every history of
         "Where stated the callback of a declared waiter is another KIND OF CALLABLE (bound method, functools.partial, "
         "object with __call__, builtin, class; a name= is given only where the callable has no __name__) or the "
         "declaration carries args=/kw= which the callback must receive; such a waiter has the same choices. "
+        "Where stated COMPONENTS LISTEN TO CORE'S OWN EVENTS (GoingUp, Up, GoingDown, Down, ComponentRegistered): two "
+        "listeners per event (A: object subscribed with core.addListeners, priority 5, ahead of the deferral-taking "
+        "GoingUp handlers; B: functions subscribed by event name, priority -1, behind them; the observing listeners of "
+        "the harness are ahead of both), and EVERY call of such a listener picks one of {return, fail with each of the "
+        "stated fault kinds (ordinary Exception, Exception whose text cannot be produced, revent's own ReventError "
+        "raised by revent for a misuse inside the handler / directly / as a subclass, SystemExit / KeyboardInterrupt), "
+        "halt the event, call core.quit(), register an unregistered component, declare a further waiter}; these "
+        "picks count as non-default picks.  A listener's exception that comes out of goUp / release / quit / register "
+        "is by itself not a violation; the rendezvous and life-cycle clauses are demanded unchanged: GoingDown then "
+        "Down once per effective quit and every ready waiter run by the end of the operation, whatever a listener did. "
         "One representative history per distinct (state, fewest deviations) is extended; state = components, "
         "_waiters in order, running/starting_up/deferrals/scheduler flags, outstanding deferrals, parked quit threads, "
         "sink wiring incl. stale bindings, event log, model state. After every new operation every component object "
@@ -1341,12 +1479,17 @@ def run (cfg):
        (" no-quit" if p.get("noquit") else "") + (" waiters-only-on-masks=%s" % p["cwr_masks"] if p.get("cwr_masks") else "")
        + (" deferral-takers=%d(<=%d held each)" % (p["takers"], p["hold_max"]) if p.get("takers") else "")
        + (" register-also-as=%s" % (p["kinds"],) if p.get("kinds") else "")
-       + (" callbacks-also-as(kind of callable, declared arguments)=%s" % (p["callables"],) if p.get("callables") else ""))
+       + (" callbacks-also-as(kind of callable, declared arguments)=%s" % (p["callables"],) if p.get("callables") else "")
+       + (" component-listeners-on=%s x%d fault-kinds=%s" % (p["listeners"], p.get("nlisteners", 2), p["lfaults"])
+          if p.get("listeners") else ""))
     for p in prms))
   rep.rule += LATTICE_RULE % (LATTICE_KINDS, NAME_MODES, ARG_MODES, ENDINGS, ORDERS, cfg.pick(3, 4), DEP_FORMS,
                               REG_FORMS, CALLABLE_KINDS + ("method-equal",), SHARED_VARIANTS, ("return", "ValueError"))
   rep.bound = dict(configurations=[dict(depth=p["depth"], deviations=p["dev"], components=p["nc"],
-                                        pending_waiters=p["maxp"], sinks=len(p["sinks"])) for p in prms],
+                                        pending_waiters=p["maxp"], sinks=len(p["sinks"]),
+                                        **(dict(listened_events=len(p["listeners"]), listeners_per_event=p.get("nlisteners", 2),
+                                                listener_fault_kinds=len(p["lfaults"])) if p.get("listeners") else {}))
+                                   for p in prms],
                    callable_lattice=dict(kinds=len(LATTICE_KINDS), names=len(NAME_MODES), arguments=len(ARG_MODES),
                                          endings=len(ENDINGS), orders=len(ORDERS), waiters=cfg.pick(3, 4),
                                          component_forms=len(DEP_FORMS), registration_forms=len(REG_FORMS)),
@@ -1362,10 +1505,18 @@ def run (cfg):
     "exploration of a history stops at its first violation",
     "a failing callback raises an Exception subclass (ValueError in histories; ValueError, TypeError, AttributeError, "
     "KeyError, StopIteration, an exception whose __str__/__repr__ raise in the lattice); BaseException-only failures "
-    "(SystemExit, KeyboardInterrupt) are not demanded to be contained",
+    "(SystemExit, KeyboardInterrupt) of a waiter callback are not demanded to be contained (for a component's listener "
+    "on core's events they are among the fault kinds)",
     "waiter names given explicitly are strings; the SAME callable declared twice with identical components and "
     "arguments is not constrained (two waiters or one - the statement is silent)",
     "the dynamically made callback class names no loaded module (inspect has no source file to search)",
+    "component listeners on core's events: a listener that fails or halts ends the delivery of that event to the "
+    "listeners behind it (revent semantics, unconstrained); the harness' observers are ahead of all of them.  After a "
+    "goUp that did not return (a GoingUp / Up listener's failure came out of it) UpEvent is not demanded (boot treats "
+    "it as a failed start-up).  Whether a listener's exception comes out of the core call is unconstrained; what is "
+    "demanded is what the statement names: waiters run when ready, GoingDown then Down exactly once on quit.  A weak "
+    "listener whose object is gone is removed by revent before it can be called (its ReventError path is not reachable "
+    "sequentially)",
   ]
   for spec in P.SINKS:
     if spec[2] is not None:
